@@ -174,8 +174,13 @@ func (sc *StateCache) Get(key, blockHash string) (Value, bool) {
 			return nil, false
 		}
 
-		blockHash = prevHash.(string)
+		// a commit publishes a block's values before its link to the previous block: now that
+		// the link is visible, look again for a value committed since this block was checked
 		vv, ok = bvs.Get(blockHash)
+		if !ok {
+			blockHash = prevHash.(string)
+			vv, ok = bvs.Get(blockHash)
+		}
 		if !ok {
 			// stop if the value is not found in previous maxHisDepth rounds
 			if count >= sc.maxHisDepth {
